@@ -469,7 +469,7 @@ def _normalize_python_version_specifier(
     if len(splitted) == 3 and splitted[2] == "0" and op != "~=":
         # python_version "X.Y.0" (as re-rendered from "X.Y.*") is just "X.Y"
         splitted.pop()
-    if "*" in splitted or (op == "~=" and len(splitted) == 3 and splitted[2] == "0"):
+    if ("*" in splitted or op == "~=" and splitted[2:] == ["0"]) and len(splitted) <= 3:
         return marker.specifier
     if len(splitted) > 2 or not all(s.isdigit() for s in splitted):
         # python_version itself is always "X.Y": a longer or suffixed literal
